@@ -210,7 +210,8 @@ class Search:
                         "after continuing, the persisted ri_whfast.p_jh differs only in members WHFast never initialises (%s)" % d2,
                         {"cfg": cfg, "path": path, "difference": d2})
             return
-        fk = self.classify_continue(cfg, b0, path, k, d3)
+        rawswitch = any(op.startswith("switchraw:") for op in cfg.get("pre", []) + cfg.get("post", []))
+        fk = "C05-N11:integrator-switched-without-reset" if rawswitch else self.classify_continue(cfg, b0, path, k, d3)
         what = "restored simulation does not continue bit-for-bit after %d steps: %s (path %s, cfg %s)" % (k, d3, path, key)
         c.violation(fk if fk else "continue:" + cfg["integrator"] + ":" + d3.split(" ")[0], what,
                     {"cfg": cfg, "path": path, "steps": k, "difference": d3})
@@ -243,6 +244,10 @@ def _twin_one(self, cfg, path, k=9):
     self.restore(t1, path)
     na, n = self.peek(t2, "ri_ias15.N_allocated"), self.peek(t2, "N")
     fk = None
+    if any(op.startswith("switchraw:") for op in cfg.get("pre", []) + cfg.get("post", [])):
+        c.violation("C05-N11:integrator-switched-without-reset", "saved vs never-saved twin differ in a history that switches integrators without reset: %s, cfg %s" % (d, cfg_key(cfg)),
+                    {"cfg": cfg, "path": path, "steps": k})
+        return
     if na > 3 * n:
         self.poke(t2, "ri_ias15.N_allocated", 3 * n)
         fk = "C05-N9:save-compresses-live-ias15-arrays"
@@ -360,8 +365,8 @@ def _archive_one(self, cfg, k=7):
                 fk = "C05-N2:tree-restart-not-bitwise"
             elif cfg["integrator"] == "trace" and cfg.get("o", {}).get("peri_mode", 1) != 1:
                 fk = "F9a:trace-peri_mode-not-persisted"
-            elif cfg["integrator"] == "eos" and gs is not None and gs[1] == 1 and cfg.get("o", {}).get("safe_mode", 1) == 0:
-                fk = "C05-N10:getSimulation-synchronizes-eos-for-real"
+            elif cfg["integrator"] in ("eos", "mercurius") and gs is not None and gs[1] == 1 and cfg.get("o", {}).get("safe_mode", 1) == 0:
+                fk = "C05-N10:getSimulation-synchronizes-eos-mercurius-for-real"
             elif cfg["integrator"] in ("bs",):
                 fk = "F9b:bs-first_or_last_step-forced-after-load"
             c.violation(fk if fk else "archive-continue:" + name.split("(")[0] + ":" + cfg["integrator"],
@@ -663,15 +668,31 @@ def run_cases(c, S, cases, nproc=8, chunk=12):
         return (pid, rfd, sub)
 
     def finish(job):
+        import select, signal
         pid, rfd, sub = job
         data = b""
+        deadline = time.time() + (10 + 2 * len(sub))     # watchdog: the Kepler solver can loop forever (F14, C03)
+        hung = False
         while True:
+            rdy, _, _ = select.select([rfd], [], [], max(0.0, deadline - time.time()))
+            if not rdy:
+                hung = True
+                os.kill(pid, signal.SIGKILL)
+                break
             ch = os.read(rfd, 1 << 16)
             if not ch:
                 break
             data += ch
         os.close(rfd)
         _, status = os.waitpid(pid, 0)
+        if hung:
+            if len(sub) > 1:
+                for one in sub:
+                    finish(start([one]))
+            else:
+                S.hist["hung_case_killed_by_watchdog"] = S.hist.get("hung_case_killed_by_watchdog", 0) + 1
+                S.hist.setdefault("hung_cases", []).append(cfg_key(sub[0][0])[:300])
+            return
         if status == 0 and data:
             o = json.loads(data.decode())
             replay_events(c, o["ev"], o["hist"], S)
